@@ -18,7 +18,9 @@ def configs(tier):
     return [
         {"name": "sb4096-f10", "sb": 4096, "lens": shapes, "atts": [0, 3], "maxfault": 10, "mixes": [2, 3]},
         {"name": "sb8192-f10", "sb": 8192, "lens": shapes, "atts": [0, 3], "maxfault": 10, "mixes": [2]},
-        {"name": "sys-f6", "sb": None, "lens": shapes, "atts": [0, 3], "maxfault": 6, "mixes": [2], "limit": 6000,
+        {"name": "sb20000-f10", "sb": 20000, "lens": shapes, "atts": [0, 1, 3], "maxfault": 10, "mixes": [2]},
+        {"name": "sb5001-f9", "sb": 5001, "lens": shapes, "atts": [0, 3], "maxfault": 9, "mixes": [3]},
+        {"name": "sys-f8", "sb": None, "lens": shapes, "atts": [0, 3], "maxfault": 8, "mixes": [2], "limit": 6000,
          "liveness": False},
     ]
 
